@@ -496,3 +496,50 @@ def twin_builder(g, E, do, length):
         do(_req(g, [{"op": "getAttributes", "uid": X, "names": []}], ver, user=ua))
     do(_req(g, [{"op": "destroy", "uid": Z}], ver, user=ua))      # not his: his twin's
     do(_req(g, [{"op": "locate", "max": None, "offset": None, "attrs": []}], ver, user=ub))
+
+
+def version_mix_attr_builder(g, E, do, length):
+    """Objects created under one protocol version, their multi-valued attributes (Name, Object Group, Application Specific
+    Information) modified / deleted / added to under EVERY OTHER version - alone and inside Continue / Stop batches.
+    Whatever a version thinks of an attribute, an item that reports failure has changed nothing and one that changed
+    something reports success (mon_c08), and exactly the addressed instance changes (mon_c15)."""
+    r = g.r
+    raw_do = do
+
+    def do(j):
+        o = raw_do(j)
+        if j.get("cmd") == "req":
+            raw_do({"cmd": "dump"})
+        return o
+    made = g.ch([11, 12, 13, 14, 20])
+    attrs = [_A("Cryptographic Algorithm", "enum", 3), _A("Cryptographic Length", "int", 128),
+             _A("Cryptographic Usage Mask", "int", 12), _A("Name", "name", "vm-a", 0, t=1), _A("Name", "name", "vm-b", 1, t=1),
+             _A("Object Group", "text", "grpA", 0), _A("Object Group", "text", "grpB", 1),
+             {"name": "Application Specific Information", "index": 0, "value": {"k": "appinfo", "ns": "ssl", "d": "www"}}]
+    uids = []
+    for _ in range(2):
+        u = _uid(do(_req(g, [{"op": "create", "otype": 2, "tmpl": {"tnames": 0, "attrs": [dict(a) for a in attrs]},
+                              "crypto": {"k": "ok", "t": hexof(16, rnd=r)}}], made)))
+        if u is None:
+            return
+        uids.append(u)
+    tx = lambda v: {"k": "text", "v": v}
+    nm = lambda v: {"k": "name", "v": v, "t": 1}
+    for ver in [v for v in (10, 11, 12, 13, 14) if v != made]:
+        X = g.ch(uids)
+        steps = [
+            {"op": "modifyAttribute", "uid": X, "attr": {"name": "Object Group", "index": g.ch([0, 1]), "value": tx("grp-%d" % ver)}, "current": None, "new": None},
+            {"op": "deleteAttribute", "uid": X, "name": "Object Group", "index": g.ch([0, 1, None]), "current": None, "reference": None},
+            {"op": "modifyAttribute", "uid": X, "attr": {"name": "Name", "index": g.ch([0, 1]), "value": nm("nm-%d" % ver)}, "current": None, "new": None},
+            {"op": "deleteAttribute", "uid": X, "name": "Name", "index": 1, "current": None, "reference": None},
+            {"op": "modifyAttribute", "uid": X, "attr": {"name": "Application Specific Information", "index": 0,
+                                                          "value": {"k": "appinfo", "ns": "ssl", "d": "v%d" % ver}}, "current": None, "new": None},
+            {"op": "deleteAttribute", "uid": X, "name": "Application Specific Information", "index": 0, "current": None, "reference": None},
+        ]
+        r.shuffle(steps)
+        k = g.ch([1, 2, 2, 3])
+        chosen = [dict(s) for s in steps[:k]]
+        if k > 1 and g.p(0.5):
+            chosen.insert(g.ch([0, 1]), {"op": "getAttributeList", "uid": X})
+        do(_req(g, chosen, ver, bopt=g.ch([1, 1, 2])))
+        do(_req(g, [{"op": "getAttributes", "uid": X, "names": []}], g.ch([ver, made])))
